@@ -85,6 +85,7 @@ TD = {
     'wrapdates': dict(dates=[((3, 1), (4, 10)), ((12, 15), (1, 15))]),
     'wrapboth': dict(times=[((6, 0, 0, 0), (7, 0, 0, 0)), ((23, 0, 0, 0), (1, 0, 0, 0))],
                      dates=[((1, 2), (1, 2)), ((12, 31), (1, 1))]),
+    'r1145': dict(times=[((11, 45, 0, 0), (11, 50, 0, 0))]),
     'empty': dict(times=[]),
     'none': dict(),
     'dates': dict(dates=[((2, 28), (3, 1))]),
@@ -101,6 +102,8 @@ TS = {
     'span-yearend': dict(span=[((2023, 12, 31, 23, 50, 0, 0), (2024, 1, 1, 0, 10, 0, 500000))]),
     'span-past': dict(span=[((2020, 1, 1, 0, 0, 0, 0), (2020, 1, 2, 0, 0, 0, 0))]),
     'span-empty': dict(span=[]),
+    # past-dated range with the same times of day as 'span' (a yearly event being updated)
+    'span-past-same': dict(span=[((2023, 2, 28, 12, 10, 0, 0), (2023, 2, 28, 12, 20, 0, 0))]),
     'span-two': dict(span=[((2024, 2, 28, 11, 50, 0, 0), (2024, 2, 28, 12, 15, 0, 0)),
                            ((2024, 2, 28, 12, 15, 0, 0), (2024, 2, 28, 12, 45, 0, 1))]),
     'span-inverted': dict(span=[((2024, 2, 28, 12, 20, 0, 0), (2024, 2, 28, 12, 10, 0, 0))]),
@@ -215,11 +218,11 @@ def configs(tier):
         out.append(dict(kind='start', blocks=names, t0=DAY + 11 * 3600 * US + 7, span=14 * 3600 * US,
                         read_lat=1, utc=False, actions=()))
     # S2: reconfiguration of block y (and of x itself) around a boundary of block x
-    pairs = [('hour', 'offhour', 'micro'), ('offhour', 'hour', 'two'), ('wrap', 'offhour', 'adjacent'),
+    pairs = [('hour', 'span-past-same', 'span'), ('hour', 'offhour', 'micro'), ('offhour', 'hour', 'two'), ('wrap', 'offhour', 'adjacent'),
              ('span', 'hour', 'offhour'), ('adjacent', 'span-two', 'span'), ('two', 'none', 'offhour'),
              ('hour', 'span-empty', 'span-two'), ('micro', 'offhour', 'wrap')]
     if tier == 'quick':
-        pairs = pairs[:5]
+        pairs = pairs[:6]
     for x, y, y2 in pairs:
         for b in first_boundaries(x)[:2]:
             for off in OFFSETS:
@@ -281,6 +284,15 @@ def configs(tier):
                 out.append(dict(kind='jump', blocks=names, t0=DAY + 11 * 3600 * US + 30 * 60 * US,
                                 span=5 * 3600 * US, read_lat=1, utc=False,
                                 actions=(('jump', when, j),)))
+    # S4c: a forward jump, and much later a reconfiguration that adds a boundary shortly before
+    # the scheduler's next wake-up (the scheduler must still listen for reloads then)
+    for j in (30 * US, 600 * US, 3600 * US):
+        for lead in (20 * 60 * US, 8 * 60 * US, 6 * 60 * US + 30 * US):
+            t0 = DAY + 9 * 3600 * US + 30 * 60 * US
+            act = (('jump', 'mid-sleep', j),
+                   ('reconfig', DAY + 11 * 3600 * US + 45 * 60 * US - lead, 1, 'r1145', 0))
+            out.append(dict(kind='jump', blocks=('hour', 'none'), t0=t0, span=3 * 3600 * US + j,
+                            read_lat=1, utc=False, actions=act, max_dev=0))
     # S4b: the clock reset (detected at the next wake-up) lands within microseconds of a boundary
     for names, bnd in ((('offhour',), DAY + 12 * 3600 * US + 20 * 60 * US),
                        (('span', 'hour'), DAY + 12 * 3600 * US + 10 * 60 * US)):
